@@ -18,6 +18,18 @@ CHECKS = {
              "running Python on all 33x33 code pairs each run), CastSem.v as the meaning of ONNX Cast (cross-checked against numpy).",
         technique="Rocq proof over auto-translated decision code + Flocq formats; translator correspondence by vm_compute"),
 
+    "C02": dict(
+        category="proof",
+        text="Proof (partial in the programs quantifier): Coq proves, for ALL SSA graphs over arbitrary operator semantics, the soundness of the two "
+             "graph-surgery primitives every rewrite is built from (replace_all_uses_with incl. graph outputs and nested-graph captures; node removal "
+             "with captures and graph outputs as observers), the semantic meaning of the translated permutation guard, the transpose-pair redirect in "
+             "every graph, and that the translated commuting-operator sets contain only pointwise operators. The control flow of the 18 passes is not "
+             "modelled: the whole rewrite neighbourhood (2.5k graphs: every subset of intermediates as outputs, side-operand kinds, nested captures, "
+             "symbolic dims, cast table) is enumerated through the real optimizer with ONNX Runtime before/after.",
+        design_ref="DESIGN.md section 4 C02",
+        note="Trusted: Coq kernel (no axioms); translator for _is_inverse_perm and the op sets; Graph.v as the model of onnx_ir's replace_all_uses_with/remove "
+             "(tied by differential run on random graphs with nested If bodies each run); ONNX Runtime as oracle for the enumeration (exploration, exhaustive over the listed families only).",
+        technique="Rocq proofs of graph-rewrite primitives and guard lemmas over auto-translated code; exhaustive enumeration of rewrite neighbourhoods with ORT differential as tie/search"),
     "C12": dict(
         category="proof",
         text="Proof: for every teq-respecting function of the plain export, every subset of flagged 4-D inputs/outputs and every input, "
